@@ -9,6 +9,48 @@ NOTE = ("Trusted: Coq 8.16.1 kernel + vm_compute; tools/gen_consts.py; the Rust 
 TECH = "machine-checked proof in Coq (Rocq) over a Gallina model + differential correspondence check against the Rust code"
 
 CLAIMED = {
+    "C05": {
+        "text": "Theorems (props/C05.v) over the Gallina handler model for ALL node states and ALL messages: a read-only node never "
+                "replies and is unchanged (c05_read_only_silent); a serving node produces exactly one reply per query, echoing the "
+                "transaction id bytes of any length and carrying its own id or an error (c05_one_reply); exact shapes of ping / "
+                "find_node / get_peers replies (20-byte token; values only of the requester's family and capped; node lists only of "
+                "the requested families - want, else own family - at most 8 each) and of announce_peer (203 iff the token check fails, "
+                "and then the store is untouched; 202 iff the store refuses; ack otherwise; stored contact = source IP with the "
+                "announced or implied port); and c05_only_queries_otherwise: every event that is not a query - responses, errors, "
+                "timers, commands, bootstrap changes - sends nothing but queries. Tie: every event the real handler handled in "
+                "simulated node runs (hook log) is replayed through the model in Coq and must yield exactly the real datagrams, "
+                "yields and stream ends (trace validation); a reply-discipline checker runs on the real datagrams and failing "
+                "scenarios are shrunk.",
+        "ref": "7/C05", "axioms": "none",
+        "note_extra": "Undecodable datagrams never reach the handler (socket loop); that clause is observed in the runs (and covered by C14's decoder theorems), not a theorem of the handler model. Assumptions A-ORDER, A-TIME.",
+    },
+    "C13": {
+        "text": "Theorems (props/C13.v, proved by the codec work package) over the Gallina model of message.rs/compact.rs/bencode.rs and the "
+                "serde/torrust-serde-bencode semantics: c13_encode_canonical (encode = canonical bencoding of the BEP5/32 dictionary "
+                "tree_of_msg for every well-formed message), c13_roundtrip (decode(encode m) = m, also with trailing bytes), "
+                "c13_bencode_roundtrip, c13_reorder_unknown_keys (any permutation of entries and unknown extra keys at top level, "
+                "inside a and inside r decode to the same message; nesting bound 32 from the precheck), c13_rejects (q/a mismatch, "
+                "ids not 20 bytes, node strings not a multiple of 26/38, peer strings not 6/18 => None), c13_none_is_error (the "
+                "fuelled decoder never runs out of fuel). Tie: constants from the source; the public Message::encode/decode of the "
+                "real crate is run on thousands of structured messages, their key-permuted/extended re-encodings and a malformed "
+                "stream, and compared with the model (Some msg/None and exact bytes) in Coq.",
+        "ref": "7/C13", "axioms": "none",
+        "note_extra": "The decoder model is my reading of serde-derive + torrust-serde-bencode (modelled, not verified; agreement measured on >10^5 inputs in the thorough tier).",
+    },
+    "C14": {
+        "text": "Theorems (props/C14.v) over the instrumented decoder model (precheck of src/bencode.rs + library): c14_alloc_bounded - for "
+                "EVERY byte string b every allocation the decoder requests is <= length b (and so is their sum); c14_depth_bounded - "
+                "container nesting <= 34 (MAX_DEPTH 32 read from the source + the 2 levels the generic value reader is entered with); "
+                "c14_pinned_refuted / c14_onepass_refuted - the decoder without precheck, and the first (one-pass) repair, request a "
+                "99999999999-byte allocation on a 16- resp. 42-byte datagram and recurse 700+ levels (the genuine defects repaired in "
+                "/repo commits 5bf0439 + 34e8a98). Tie: each input of a structure-aware malformed stream (length prefixes up to and "
+                "beyond 2^64, integer limits, nesting to 1500, truncation at every offset, type swaps, struct-as-list desync, non-UTF-8) "
+                "is decoded by the real crate in a supervised child process (2 MiB stack, allocation meter, rlimit, panic hook) and "
+                "compared with the model. The running-node clause (a node keeps serving after any datagram sequence) is exercised by "
+                "the node runs of C05/C12 (no PANIC line, API calls answered), not proved.",
+        "ref": "7/C14", "axioms": "none", "category": "proof",
+        "note_extra": "Partial by nature: that the real allocator/stack survive is observed, the theorem bounds what is requested. std/serde/tokio are modelled, not verified.",
+    },
     "C08": {
         "text": "Theorems (props/C08.v) over the Gallina model of node.rs/bucket.rs/table.rs. c08_inv_all_histories: the shape invariant "
                 "TInv holds after EVERY history of offers (responder/hearsay), whole responses, queries sent and received at arbitrary "
